@@ -31,6 +31,8 @@ fn native_hist(mut v: Element, b: Element, ops: &str) -> String {
             'n' => v = -v,
             'p' => v = v + b,
             'm' => v = v - b,
+            'i' => reads.push(format!("b:{}", (v == b) as u8)),
+            'u' => reads.push(format!("u:{}", (v == b) as u8)),   // enforce_equal: satisfiable exactly when equal
             _ => {}
         }
     }
